@@ -448,3 +448,61 @@ def gen_simplex_removals(H):
     if es:
         out.append(f"H.remove_edge({es[-1]!r})")
     return out
+
+
+# ---------------------------------------------------------------------------------------------------------------
+# trimmed alphabets (one representative per structurally distinct operation) for deeper searches
+
+
+def hypergraph_trim():
+    return [
+        "H.add_node(1)", "H.add_node(3)", "H.add_edge([])", "H.add_edge([1])", "H.add_edge([1, 2])", "H.add_edge([2, 3])",
+        "H.add_edge([1, 2, 3])", "H.add_edge([1, 2], idx=0)", "H.add_edge([2, 3], idx=2)", "H.add_edge([1, 3], idx='e')",
+        "H.add_edges_from([[1, 2], [2, 3]])", "H.add_edges_from([([1, 2], 2), ([1, 3], 0)])",
+        "H.add_edges_from([([1, 2], {'w': 1}), ([3], {'w': 2})])", "H.add_edges_from({0: [1, 2], 2: [2, 3]})",
+        "H.add_edges_from({5: [1, 2, 3], 1: [2]})", "H.add_node_to_edge(0, 3)", "H.add_node_to_edge('e', 1)",
+        "H.add_node_to_edge(5, 1)", "H.remove_node(1)", "H.remove_node(2, strong=True)", "H.remove_node(3, remove_empty=False)",
+        "H.remove_nodes_from([1, 3], remove_empty=False)", "H.remove_edge(0)", "H.remove_edge(1)", "H.remove_edge('e')",
+        "H.remove_edges_from([0, 1])", "H.clear_edges()", "H.clear()", "H.merge_duplicate_edges()",
+        "H.merge_duplicate_edges(rename='new', merge_rule='union')", "H.merge_duplicate_edges(rename='tuple', merge_rule='intersection')",
+        "H.update(edges=[[1, 2]], nodes=[3])", "H.set_edge_attributes(1.5, name='w')", "H.cleanup()", "H.cleanup(relabel=False)",
+        "H.cleanup(multiedges=True, connected=True, relabel=False)", "xgi.convert_labels_to_integers(H, in_place=True)",
+        "xgi.largest_connected_hypergraph(H, in_place=True)",
+        # deviant
+        "H.add_edge([3, None])", "H.add_edges_from([[1, 2], [3, None]])", "H.add_edges_from({5: [3, None]})",
+        "H.remove_edges_from([0, 9])", "H.remove_edges_from([0, 0])", "H.add_node_to_edge(0, None)", "H.add_edges_from([[]])",
+    ]
+
+
+def dihypergraph_trim():
+    return [
+        "H.add_node(1)", "H.add_node(3)", "H.add_edge(([1], [2]))", "H.add_edge(([1, 2], [2, 3]))", "H.add_edge(([3], []))",
+        "H.add_edge(([], []))", "H.add_edge(([1], [2]), idx=0)", "H.add_edge(([2, 3], [1]), idx=2)", "H.add_edge(([1, 3], [3]), idx='e')",
+        "H.add_edges_from([([1], [2]), ([2, 3], [1])])", "H.add_edges_from([(([1], [2]), 2), (([1], [3]), 0)])",
+        "H.add_edges_from([(([1], [2]), {'w': 1}), (([3], []), {'w': 2})])", "H.add_edges_from({0: ([1], [2]), 2: ([2, 3], [1])})",
+        "H.add_node_to_edge(0, 3, 'in')", "H.add_node_to_edge(0, 3, 'out')", "H.add_node_to_edge(5, 1, 'in')",
+        "H.add_node_to_edge('e', 1, 'out')", "H.remove_node(1)", "H.remove_node(2, strong=True)",
+        "H.remove_node(3, remove_empty=False)", "H.remove_nodes_from([1, 3], remove_empty=False)", "H.remove_edge(0)",
+        "H.remove_edge(1)", "H.remove_edges_from([0, 1])", "H.clear()", "H.set_edge_attributes(1.5, name='w')", "H.cleanup()",
+        "H.cleanup(isolates=True, relabel=False)", "xgi.convert_labels_to_integers(H, in_place=True)",
+        "H.add_edge(([3, None], [1]))", "H.add_edge(([1], [[2]]))", "H.add_edges_from([([1], [2]), ([1], [3, None])])",
+        "H.add_edges_from({5: ([2], [3, None])})", "H.remove_edges_from([0, 9])", "H.add_node_to_edge(0, None, 'out')",
+        "H.add_node_to_edge(7, 1, 'sideways')",
+    ]
+
+
+def simplicial_trim():
+    return [
+        "H.add_node(1)", "H.add_simplex([1])", "H.add_simplex([1, 2])", "H.add_simplex([2, 3])", "H.add_simplex([1, 2, 3])",
+        "H.add_simplex([2, 3, 4])", "H.add_simplex([1, 2, 3, 4])", "H.add_simplex([1, 2], idx=0)", "H.add_simplex([2, 3, 4], idx=2)",
+        "H.add_simplex([1, 3], idx='e', w=1)", "H.add_simplices_from([[1, 2, 3], [2, 3, 4]])",
+        "H.add_simplices_from([[1, 2, 3, 4]], max_order=1)", "H.add_simplices_from([([1, 2, 3], 2), ([3, 4], 0)])",
+        "H.add_simplices_from([([1, 2, 3, 4], {'w': 1}), ([1, 2], {'w': 2})], max_order=2)",
+        "H.add_simplices_from({0: [1, 2, 3], 5: [1, 2, 3, 4]})", "H.add_simplices_from({0: [1, 2, 3], 5: [1, 2, 3, 4]}, max_order=1)",
+        "H.add_simplices_from([[1, 2, 3, 4, 5]], max_order=2)", "H.add_weighted_simplices_from([(1, 2, 0.5), (2, 3, 4, 2.0)])",
+        "H.add_edge([1, 2, 3])", "H.add_edges_from([[1, 4], [2, 3, 4]])", "H.remove_node(1)", "H.remove_node(3)",
+        "H.remove_nodes_from([1, 2])", "H.close()", "H.clear()", "H.cleanup()", "H.cleanup(isolates=True, connected=False, relabel=False)",
+        "H.add_simplex([])", "H.add_simplex([3, None])", "H.add_simplices_from([[1, 2], [3, None]])",
+        "H.add_simplices_from([([1, 2, None], 7)], max_order=1)", "H.add_simplices_from({5: [3, None]})", "H.remove_simplex_id(9)",
+        "H.remove_simplex_ids_from([0, 9])",
+    ]
